@@ -15,11 +15,12 @@
       previous call / another Db); file-static hidden arguments are assigned before the calls that read them
 """
 import os
+import re
 import subprocess
 
 import facts
 from facts import REPO, Program, extract, show, call_obj, call_args, walk, CALL_KINDS
-from e1_paths import CFG
+from e1_paths import CFG, peel_cond
 from report import Check
 
 UNITS = ["src/Basic/String.cpp", "src/Db/Db.cpp", "src/Db/DbGrid.cpp", "src/Db/DbLine.cpp", "src/Db/DbHelper.cpp", "src/Db/PtrGeos.cpp",
@@ -420,6 +421,63 @@ def main(tier):
     chk.units += [u for u in kprog.units if u not in chk.units]
     uidkinds.rule(kprog, chk, "R7.9", ("src/",), 60)
     uidkinds.table_rule(prog, chk, "R7.10", 10)
+    # R7.14: a refused call modifies nothing.  In the methods of the Db family an early `return` taken because an ARGUMENT is invalid
+    # (`if (!isUIDValid(iuid)) return;`, isColIdxValid, isSampleIndexValid ...) is not preceded, on any path, by a modification of the
+    # object (a non-const member call on `this` or an assignment to a member): the validation comes first
+    n14 = 0
+    for f in sorted(prog.funcs, key=lambda x: (x.file, x.line)):
+        if f.cfg is None or not (f.cls or "").startswith("Db") or f.kind != "method":
+            continue
+        pd = {p_["d"] for p_ in f.params}
+        checks = []
+        for x in f.walk():
+            if x["k"] != "If" or x["c"][-3] is None or x["c"][-2] is None:
+                continue
+            core, pol = peel_cond(x["c"][-3])
+            if core is None or core["k"] != "MCall" or not re.match(r"is\w*Valid$", (core.get("callee") or "").split("::")[-1]):
+                continue
+            a_ = [y for y in call_args(core) if y is not None]
+            if not a_ or not any(y["k"] == "DeclRefExpr" and y.get("d") in pd for y in walk(a_[0])):
+                continue
+            if pol is not False or not any(y["k"] == "Return" for y in walk(x["c"][-2])):
+                continue
+            checks.append((x, core))
+        if not checks:
+            continue
+        g_ = CFG(f)
+
+        def mutates(y):
+            if y["k"] == "Assign" and y["c"][0] is not None:
+                l = y["c"][0]
+                while l is not None and (l["k"] in ("Index", "Cast") or (l["k"] == "OpCall" and l.get("op") == "[]")):
+                    l = l["c"][0]
+                return l is not None and l["k"] == "MemberExpr" and l.get("mk") == "field"
+            if y["k"] == "MCall" and not y.get("cconst"):
+                o = call_obj(y)
+                if o is None or o["k"] == "This":
+                    return not (y.get("callee") or "").split("::")[-1].startswith(("is", "get", "_get", "_is", "has"))
+                return o["k"] == "MemberExpr" and o.get("mk") == "field"
+            return False
+        for x, core in checks:
+            if g_.pos_of(core) is None:
+                continue
+            n14 += 1
+            w = g_.search(g_.entry_pos(), is_target=lambda y, core=core: y["i"] == core["i"], is_barrier=None)
+            # is there a mutation on some path from the entry to the test?
+            hit = None
+            for y in f.walk():
+                if mutates(y) and g_.pos_of(y) is not None:
+                    w1 = g_.search(g_.entry_pos(), is_target=lambda z, y=y: z["i"] == y["i"], is_barrier=lambda z, core=core: z["i"] == core["i"])
+                    if w1 is not None and g_.search(g_.after(y), is_target=lambda z, core=core: z["i"] == core["i"]) is not None:
+                        hit = y
+                        break
+            ok = hit is None
+            if not ok:
+                chk.analysed(f)
+            chk.ob("R7.14", "%s: `%s` is checked before the object is modified" % (f.sig(), show(core)[:40]), f.loc(x), ok,
+                   detail=None if ok else "`%s` (line %s) runs before the validity test: a call refused for its argument has already changed the data base" % (
+                       show(hit)[:50], f.loc(hit).split(":")[-1]), key="R7.14|%s/%d|%s" % (f.name, len(f.params), show(core)[:40]), nontrivial=not ok)
+    chk.floor("R7.14", n14, 30)
     # R7.13: what a reader decodes is used.  In the `_deserialize` functions of the Db family every local that only RECEIVES values
     # (push_back / assignment / output argument) and is never read afterwards is a decoded field that the rebuilt object ignores
     # (the rank of a role decoded from "z2" and then replaced by "next free rank": the roles are renumbered at reload)
@@ -471,7 +529,6 @@ def main(tier):
     # R7.12: names are compared as the caller asked.  In the name-matching helpers (String.cpp) a parameter `caseSensitive` guards the
     # folding of the case: every toUpper / toLower is executed only when the flag is FALSE (the siblings matchRegexp, matchKeyword,
     # decodeInString agree); folding under the flag itself makes "Temp" and "TEMP" designate the first column whose name matches
-    from e1_paths import peel_cond
     n12 = 0
     for f in sorted(prog.funcs, key=lambda x: (x.file, x.line)):
         if f.body is None:
